@@ -176,6 +176,9 @@ func (s *Stack) Unalias(ref string) string {
 			return id
 		}
 	}
+	if strings.HasPrefix(ref, "id#") { // an invocation number that has not appeared (yet): some other well-formed id
+		return "00000000-0000-4000-8000-" + fmt.Sprintf("%012d", len(ref))
+	}
 	return ref
 }
 
@@ -301,7 +304,8 @@ func (s *Stack) bodyClass(b []byte) string {
 	if b[0] == '{' && json.Unmarshal(b, &m) == nil {
 		if t, ok := m["errorType"].(string); ok {
 			msg, _ := m["errorMessage"].(string)
-			return "errjson:" + t + ":" + hash([]byte(s.scrubIDs(msg)))
+			s.L.Add("#errmsg %s %q", t, s.scrubIDs(msg))
+			return "errjson:" + t
 		}
 	}
 	return "bytes:" + hash(b)
